@@ -575,6 +575,9 @@ fn factored_code_delta(prev_offset: u32, offset: u32, factor: u8) -> Result<u32>
     }
     let delta = offset - prev_offset;
     let factor = u32::from(factor);
+    if factor == 0 {
+        return Err(Error::InvalidFrameCodeOffset(offset));
+    }
     let factored_delta = delta / factor;
     if delta != factored_delta * factor {
         return Err(Error::InvalidFrameCodeOffset(offset));
@@ -584,6 +587,9 @@ fn factored_code_delta(prev_offset: u32, offset: u32, factor: u8) -> Result<u32>
 
 fn factored_data_offset(offset: i32, factor: i8) -> Result<i32> {
     let factor = i32::from(factor);
+    if factor == 0 || (offset == i32::MIN && factor == -1) {
+        return Err(Error::InvalidFrameDataOffset(offset));
+    }
     let factored_offset = offset / factor;
     if offset != factored_offset * factor {
         return Err(Error::InvalidFrameDataOffset(offset));
